@@ -8,12 +8,12 @@ package sniffing
 import (
 	"bytes"
 	"context"
-	"crypto/tls"
 	"errors"
 	"fmt"
 	"io"
 	"net"
 	"os"
+	"runtime"
 	"runtime/debug"
 	"sort"
 	"sync"
@@ -192,100 +192,6 @@ type c06StreamPlan struct {
 
 var c06DrainModes = []string{"read", "read", "writeto", "prefix_copy", "prefix_read", "segments_read"}
 
-type c06RealKey struct {
-	name    string
-	variant int
-}
-
-var (
-	c06RealMu    sync.Mutex
-	c06RealCache = map[c06RealKey][]byte{}
-)
-
-// c06RealHello returns the first flight of a crypto/tls client (one or more TLS
-// records holding its ClientHello). Key material inside comes from crypto/rand; it
-// has no influence on any verdict (only the structure is parsed).
-func c06RealHello(name string, variant int) []byte {
-	c06RealMu.Lock()
-	defer c06RealMu.Unlock()
-	k := c06RealKey{name, variant}
-	if b, ok := c06RealCache[k]; ok {
-		return b
-	}
-	cfg := &tls.Config{ServerName: name, InsecureSkipVerify: true}
-	switch variant {
-	case 1:
-		cfg.MaxVersion = tls.VersionTLS12
-	case 2:
-		cfg.CurvePreferences = []tls.CurveID{tls.X25519}
-		cfg.NextProtos = []string{"h2", "http/1.1"}
-	case 3:
-		cfg.MinVersion = tls.VersionTLS13
-		cfg.NextProtos = []string{c06Decoy}
-		cfg.SessionTicketsDisabled = true
-	}
-	cl, sv := net.Pipe()
-	done := make(chan struct{})
-	go func() {
-		defer close(done)
-		_ = tls.Client(cl, cfg).Handshake()
-		_ = cl.Close()
-	}()
-	var out []byte
-	hdr := make([]byte, 5)
-	need := -1
-	for need != 0 {
-		if _, err := io.ReadFull(sv, hdr); err != nil {
-			break
-		}
-		body := make([]byte, int(hdr[3])<<8|int(hdr[4]))
-		if _, err := io.ReadFull(sv, body); err != nil {
-			break
-		}
-		out = append(append(out, hdr...), body...)
-		if need < 0 && len(body) >= 4 {
-			need = 4 + (int(body[1])<<16 | int(body[2])<<8 | int(body[3]))
-		}
-		need -= len(body)
-		if need < 0 {
-			need = 0
-		}
-	}
-	_ = sv.Close()
-	<-done
-	c06RealCache[k] = out
-	return out
-}
-
-// c06RealQuicHello returns the ClientHello handshake message crypto/tls emits for a
-// QUIC client (no record layer).
-func c06RealQuicHello(name string) []byte {
-	c06RealMu.Lock()
-	defer c06RealMu.Unlock()
-	k := c06RealKey{name, 100}
-	if b, ok := c06RealCache[k]; ok {
-		return b
-	}
-	q := tls.QUICClient(&tls.QUICConfig{TLSConfig: &tls.Config{ServerName: name, InsecureSkipVerify: true, MinVersion: tls.VersionTLS13, NextProtos: []string{"h3"}}})
-	q.SetTransportParameters([]byte{0x01, 0x02, 0x67, 0x10, 0x0f, 0x00})
-	var out []byte
-	if err := q.Start(context.Background()); err == nil {
-		for {
-			ev := q.NextEvent()
-			if ev.Kind == tls.QUICNoEvent {
-				break
-			}
-			if ev.Kind == tls.QUICWriteData && ev.Level == tls.QUICEncryptionLevelInitial {
-				out = append(out, ev.Data...)
-			}
-		}
-	}
-	_ = q.Close()
-	c06RealCache[k] = out
-	return out
-}
-
-var c06RealNames = []string{"example.com", "www.example.net", "a.b.c.d.e.example", "xn--p1ai.example"}
 
 func c06GenStreamPlan(t *rapid.T) *c06StreamPlan {
 	p := &c06StreamPlan{}
@@ -359,7 +265,9 @@ func c06GenStreamPlan(t *rapid.T) *c06StreamPlan {
 			}
 			head[i] ^= 1 << uint(rapid.IntRange(0, 7).Draw(t, "flipbit"))
 		}
-		httpHead = nil
+		if p.Kind == "neg_trunc" {
+			httpHead = nil
+		}
 	case "neg_random":
 		p.Mutated = true
 		head = c06Bytes(t, "randombytes", 0, 600)
@@ -450,7 +358,10 @@ func c06GenStreamPlan(t *rapid.T) *c06StreamPlan {
 	p.Drain = rapid.SampledFrom(c06DrainModes).Draw(t, "drain")
 	p.EOF = rapid.Bool().Draw(t, "eof") || p.Drain == "writeto" || p.Drain == "prefix_copy"
 	p.ReadSizes = rapid.SliceOfN(rapid.SampledFrom([]int{1, 2, 7, 64, 512, 4096, 32 << 10}), 1, 6).Draw(t, "readsizes")
-	if cum == 0 && p.EOF && rapid.IntRange(0, 9).Draw(t, "nodeadlineconn") == 0 {
+	// a connection without deadline support (context-based read path of the sniffer):
+	// only for intact heads that arrive at once, so that the sniffer never has to give
+	// up on a pending read (production connections always support deadlines).
+	if cum == 0 && p.EOF && !p.Mutated && rapid.IntRange(0, 9).Draw(t, "nodeadlineconn") == 0 {
 		p.NoDeadline = true
 	}
 	return p
@@ -482,7 +393,20 @@ func c06RunStream(p *c06StreamPlan, res *c06StreamResult) (fail string) {
 	conn := c06NewConn(p.Payload, p.Cuts, p.At)
 	conn.coalesce, conn.eof, conn.noDeadline = p.Coalesce, p.EOF, p.NoDeadline
 	conn.eofCost = p.Timeout / 64
+	if p.Kind == "fuzz" {
+		conn.eofCost = p.Timeout / 4 // fewer turns of the EOF re-read loop per exec
+	}
 	cs := NewConnSniffer(conn, p.Timeout)
+	defer func() {
+		// tear down whatever happened, so that no goroutine stays blocked in the bubble
+		_ = conn.Close()
+		_ = cs.Sniffer.Close()
+		if p.NoDeadline {
+			// the context-based read path of the sniffer uses helper goroutines; let them finish
+			time.Sleep(2 * p.Timeout)
+			synctest.Wait()
+		}
+	}()
 	t0 := time.Now()
 	d, err := cs.SniffTcp()
 	elapsed := time.Since(t0)
@@ -556,7 +480,11 @@ func c06RunStream(p *c06StreamPlan, res *c06StreamResult) (fail string) {
 	res.MustFind = mustFind
 	if d != "" {
 		if known {
-			if want == "" || !c06SameName(d, want) {
+			if (want == "" || !c06SameName(d, want)) && vkKnown("F-C06-2") && !c06NoExclusion && c06EndsInsideHostLine(p.Payload[:min(res.FirstRead, len(p.Payload))]) {
+				// known finding F-C06-2: the first read ended inside the Host line and the
+				// truncated value was reported. Not judged; replay is still checked below.
+				res.Excluded = append(res.Excluded, "F-C06-2")
+			} else if want == "" || !c06SameName(d, want) {
 				return fmt.Sprintf("WRONG NAME: sniffed %q, the stream carries %q", d, want)
 			}
 		} else if !c06NameCarried(d, p.Payload) {
@@ -674,7 +602,23 @@ func c06RunStream(p *c06StreamPlan, res *c06StreamResult) (fail string) {
 	return ""
 }
 
+// c06EndsInsideHostLine: the bytes end with an unterminated header line whose field
+// name is Host and whose value has begun (the shape of finding F-C06-2).
+func c06EndsInsideHostLine(b []byte) bool {
+	if i := bytes.LastIndex(b, []byte("\r\n")); i >= 0 {
+		b = b[i+2:]
+	}
+	k, v, ok := bytes.Cut(b, []byte(":"))
+	return ok && bytes.EqualFold(bytes.TrimSpace(k), []byte("host")) && len(bytes.TrimSpace(v)) > 0
+}
+
 func c06StreamInBubble(t *testing.T, p *c06StreamPlan, res *c06StreamResult) (fail string) {
+	defer func() {
+		if r := recover(); r != nil {
+			buf := make([]byte, 1<<16)
+			fail = fmt.Sprintf("synctest bubble did not wind down: %v (oracle verdict before that: %q)\n%s", r, fail, buf[:runtime.Stack(buf, true)])
+		}
+	}()
 	synctest.Test(t, func(*testing.T) {
 		fail = c06RunStream(p, res)
 	})
